@@ -7,6 +7,7 @@ import KafkaVerif.Lemmas.WriterTrack
 import KafkaVerif.Model.ReaderClose
 import KafkaVerif.Lemmas.ReaderClose
 import KafkaVerif.Lemmas.GroupRunMeasure
+import KafkaVerif.Lemmas.GroupRunStruct
 import KafkaVerif.Lemmas.TransportLife
 
 namespace KV.C09
@@ -488,16 +489,19 @@ theorem group_run_terminates (c : Group.Cfg) (s s' : St) (e : Ev) (h : Group.ste
   simp only [Group.step, Option.ite_none_right_eq_some, Bool.and_eq_true, beq_iff_eq] at h
   exact h.1.1
 
-/-- **group_run_progress_partial** — once the group is closed the `run` goroutine always has an enabled step of
-its own (the coordinator answers it waits for count as such: every network call returns), except inside
-`gen.close()` (waits for the generation's functions: C15 `close_returns_after_all_exits`) and while it starts the
-generation's internal functions.  Partial: those two phases, and the structural facts `coord stage ≤ 2`, `a
-generation exists` are hypotheses here (they are invariants of C15's model). -/
-theorem group_run_progress_partial (c : Group.Cfg) (s : St) (hc : s.closedCG = true) (hx : s.pc ≠ .exited)
-    (hw : ∀ ret r, s.pc ≠ .waiting ret r) (hs : ∀ k, s.pc ≠ .starting k) (hcur : 0 < s.gens)
-    (hk : ∀ k lv, s.pc = .coord k lv → k ≤ 2) :
-    ∃ e, e.runLoop = true ∧ (Group.step c s e).isSome :=
-  run_progress_when_closed c s hc hx hw hs hcur hk
+/-- **group_run_progress_partial** — once the group is closed, in every *reachable* state whose pc is not `exited`
+and not inside `gen.close()` the `run` goroutine has an enabled step of its own: a coordinator answer it waits for
+(every network call returns), the start of the generation's next internal function, or a step of its loop.  The
+structural facts this needs (coordinator stage ≤ 2, a generation exists while the pc is inside one, the generation is
+untouched until its heartbeat function is started) are the inductive invariant `Inv3` (`Lemmas/GroupRunStruct.lean`).
+Partial: inside `gen.close()` (pc `waiting`) `run` waits for the generation's functions to run their exit sections —
+C15's `close_returns_after_all_exits` says it returns once they have; that each of them can (heartbeat loop, watchers,
+the Reader's commit loop and unsubscribe function react to the cancelled generation context) is per-function
+reasoning in C15/C03, not repeated here. -/
+theorem group_run_progress_partial (c : Group.Cfg) (s : St) (hr : Group.Reachable c s) (hc : s.closedCG = true)
+    (hx : s.pc ≠ .exited) (hw : ∀ ret r, s.pc ≠ .waiting ret r) :
+    ∃ e, (e.runLoop = true ∨ ∃ g acc, e = .gStart g acc) ∧ (Group.step c s e).isSome :=
+  run_progress_reachable c s hr hc hx hw
 
 end KV.C09
 
